@@ -1003,6 +1003,16 @@ def compare_placements(case, force_field, detail):
             raise Violation('match-missing', 'link %d fits at %r but match_link does not report it' % (index, dict(missing)), detail=detail)
 
 
+def _stretched(molecule):
+    """The same molecule (same node keys) in another conformation: nothing computed from these positions may show up in the
+    molecule that is judged afterwards."""
+    for idx, key in enumerate(molecule.nodes):
+        pos = molecule.nodes[key].get('position')
+        if pos is not None:
+            molecule.nodes[key]['position'] = np.array(pos, dtype=float) * 1.37 + np.array([0.3 * idx, -0.2 * (idx % 3), 0.11 * idx])
+    return molecule
+
+
 def _run_toy(case):
     force_field, text = build_force_field(case)
     detail = None
@@ -1015,9 +1025,11 @@ def _run_toy(case):
     if used_before:
         # the processor object and the force field (its links) have served a molecule before: the same one, built again
         try:
-            processor.run_molecule(build_molecule(case['mol'], force_field))
+            processor.run_molecule(_stretched(build_molecule(case['mol'], force_field)))
         except Exception:  # pylint: disable=broad-except
             pass    # the same input is judged below
+        # the warm-up molecule is gone by now; a molecule object built afterwards may well sit at its address
+        molecule = build_molecule(case['mol'], force_field)
     result = processor.run_molecule(molecule)
     model, reports = ref.apply_links(case['mol'], case['links'])
     justified = set()
@@ -1275,9 +1287,10 @@ def _run_shipped(case):
     processor = do_links.DoLinks()
     if len(mol['nodes']) % 2 == 0:
         try:
-            processor.run_molecule(build_molecule(mol, data['ff']))
+            processor.run_molecule(_stretched(build_molecule(mol, data['ff'])))
         except Exception:  # pylint: disable=broad-except
             pass    # the same input is judged below
+        molecule = build_molecule(mol, data['ff'])
     result = processor.run_molecule(molecule)
     model = ref.Model(mol)
     reports = []
